@@ -1,0 +1,41 @@
+//! Verification hook (cargo feature `verif_hooks`, off by default): a per-thread trace of
+//! the lock protocol of the lazily initialised global registries.  Add-only; with the
+//! feature off nothing of this is compiled.
+use std::cell::RefCell;
+
+thread_local! {
+    static ENABLED: RefCell<bool> = RefCell::new(false);
+    static EVENTS: RefCell<Vec<String>> = RefCell::new(Vec::new());
+}
+
+/// which of the four registry mutexes of this crate are locked right now
+/// (`F` format context, `K` known values, `N` functions, `P` parameters)
+pub fn locked_set() -> String {
+    let mut s = String::new();
+    if crate::GLOBAL_FORMAT_CONTEXT.verif_is_locked() { s.push('F'); }
+    #[cfg(feature = "known_value")]
+    if crate::extension::known_values::KNOWN_VALUES.verif_is_locked() { s.push('K'); }
+    #[cfg(feature = "expression")]
+    if crate::extension::expressions::GLOBAL_FUNCTIONS.verif_is_locked() { s.push('N'); }
+    #[cfg(feature = "expression")]
+    if crate::extension::expressions::GLOBAL_PARAMETERS.verif_is_locked() { s.push('P'); }
+    s
+}
+
+/// record `<event> <lazy> held=<locked set>` for the calling thread, if tracing is on
+pub fn record(event: &str, lazy: &str) {
+    if !ENABLED.with(|e| *e.borrow()) { return; }
+    // the probe itself must not be traced
+    ENABLED.with(|e| *e.borrow_mut() = false);
+    let line = format!("{} {} held={}", event, lazy, locked_set());
+    ENABLED.with(|e| *e.borrow_mut() = true);
+    EVENTS.with(|v| v.borrow_mut().push(line));
+}
+
+pub fn start() { EVENTS.with(|v| v.borrow_mut().clear()); ENABLED.with(|e| *e.borrow_mut() = true); }
+
+pub fn stop() -> Vec<String> {
+    record("end", "-");
+    ENABLED.with(|e| *e.borrow_mut() = false);
+    EVENTS.with(|v| std::mem::take(&mut *v.borrow_mut()))
+}
